@@ -8,7 +8,7 @@ OUT=/verif/seeded/$NAME
 mkdir -p $OUT
 cp $WT/OUT/patch.diff $WT/OUT/README.md $OUT/ 2>/dev/null
 cp $WT/OUT/demo.sh $OUT/ 2>/dev/null; cp $WT/OUT/demo.rs $OUT/ 2>/dev/null
-LOG=$OUT/confirm.log; : > $LOG
+LOG=$OUT/confirm.log; echo "--- $(date -u +%FT%TZ)" >> $LOG
 cd $WT || exit 2
 git checkout -q -- src 2>/dev/null; git apply OUT/patch.diff || { echo "patch does not apply" | tee -a $LOG; exit 2; }
 cargo build --offline -q 2>>$LOG && cargo build --offline -q --features verif 2>>$LOG || { echo "BUILD FAILS with patch" | tee -a $LOG; }
